@@ -44,3 +44,7 @@ pub mod xtypes;
 
 // To enable using our own derive macros to allow the name dust_dds:: to be used
 extern crate self as dust_dds;
+
+#[cfg(dust_dds_verif)]
+#[doc(hidden)]
+pub mod verif_hooks;
